@@ -73,9 +73,14 @@ def c10(res, thorough):
 
 
 def c11(res, thorough):
-    base_cov(res, ["memory orders", "std::priority_queue", "MSPriorityQueue: no atomic-step model yet; histories without push/pop overlap are generated by construction (pre-filled pops-only and pushes-only-then-drain) and judged against Spec.maxpq; histories with overlap are judged by a conservation oracle only (every pushed item popped exactly once after a drain; a failed push implies capacity() items can have been present)"],
-             partial=["MSPriorityQueue conservation/capacity as theorems about an algorithm model: not proved; decided on explored schedules"])
-    lean_step(res, "CdsVerif.Props.C11", thorough)
+    base_cov(res, ["memory orders", "std::priority_queue", "MSPriorityQueue: Lean machine (Algo/MSPQ: size lock, per-node locks, tags, bit-reversed slot allocation = the counter of C26) proved for all schedules and capacities 2^k-1: lock discipline, array shape, multiset conservation (no loss, no duplication), push fails only when all capacity slots hold an item, pop fails only when empty, heap order modulo owner tags and sifting pops; "
+                   "tied by trace conformance (hidden variant imspq_named); linearizability of overlap-free histories is NOT a theorem (the representation invariant at quiescence is): it is decided by histories; histories without push/pop overlap are generated by construction (pre-filled pops-only and pushes-only-then-drain) and judged against Spec.maxpq; histories with overlap are judged by a conservation oracle only (every pushed item popped exactly once after a drain; a failed push implies capacity() items can have been present)"],
+             partial=["MSPriorityQueue: linearizability of histories without push/pop overlap as a theorem (ghost log of linearization points): not proved; C11_mspq_sequential_linearizable_partial states the representation invariant at quiescence"])
+    lean_step(res, ["CdsVerif.Props.C11", "CdsVerif.Props.C11MSPQ"], thorough)
+    fcbatch.fcbatch_check(res, thorough, kinds=["pq"])
+    # tie A: the MSPriorityQueue machine (Algo/MSPQ) must accept the real traces (lock words, results, pre-fill and final drain)
+    tie_A(res, "pqueue", "mspq", [{"args": ["--mode", "mixed", "--threads", "4", "--ops", "5", "--variant", "imspq_named"], "cases": 12000 if thorough else 1500},
+                                  {"args": ["--mode", "enum2" if thorough else "enum1", "--threads", "2", "--ops", "3", "--variant", "imspq_named"], "cases": 8 if thorough else 3}])
     tie_H(res, "pqueue", hist_runs(thorough, 3, 4, (10, 20), (2500, 30000)), ignore_oracle=FC_ORACLE)
     # push || pop overlap: no order is claimed, only conservation and "push fails only when full" (client-side oracle)
     for v in ("mspq_mixed", "imspq_mixed"):
@@ -147,20 +152,40 @@ def c01(res, thorough):
     tie_H(res, "smr", smr_runs(thorough, ["hp_inplace", "hp_classic", "hp_inplace_odd", "hp_classic_odd"]), judged=False, only_oracle=SMR_SAFETY)
 
 
+def dhp_tie(res, thorough):
+    """tie A for the DHP machine (Algo/DHP: guard storage growing by extension blocks, retired chain growing by blocks,
+    scan over initial arrays and all linked extension blocks; static thread records)."""
+    import dhp_pre
+    tie_A(res, "smr", "dhp",
+          [r for v in ("dhp", "dhp_many") for r in (
+              {"args": ["--static", "1", "--mode", "mixed", "--threads", "4", "--ops", "6", "--variant", v], "cases": 4000 if thorough else 400},
+              {"args": ["--static", "1", "--mode", "enum2" if thorough else "enum1", "--threads", "2", "--ops", "2", "--variant", v], "cases": 4 if thorough else 2})]
+          + [{"args": ["--static", "1", "--mode", "mixed", "--threads", "3", "--ops", "5", "--variant", "dhp", "--grow", "200"], "cases": 6 if thorough else 3}],
+          pre=dhp_pre.dhp_pre)
+
+
 def c02(res, thorough):
-    smr_cov(res, ["DHP guard blocks and retired blocks: no model; decided by the oracle on explored schedules (40 guards per thread force two extension blocks)"])
-    lean_step(res, "CdsVerif.Props.C02", thorough)
+    smr_cov(res, ["Algo/DHP: Lean machine of the dynamic hazard pointers with STATIC thread records: guard handles (galloc / gfree) over the initial array and extension blocks of B guards, "
+                  "retired chain as blocks of RB entries with the code's extension rule, a pass = one load per slot of the initial array, the load of extended_list_, every slot of every linked block, then the decision; "
+                  "C02_guarded_never_disposed, C02_extension_visible, C02_pass_reads_every_linked_slot, C02_disposed_once, C02_no_object_lost ... hold for every schedule, any initial guard count and any number of guards / retired objects; "
+                  "tied by trace conformance (dhp and dhp_many variants, initial guard counts 4..32, up to 40 guards per thread, retired chains of two blocks through --grow)",
+                  "detach / re-attach of records, help_scan and recycling of extension blocks through hp_allocator are not in the machine: decided by the disposer-time oracle on explored schedules"])
+    lean_step(res, ["CdsVerif.Props.C02", "CdsVerif.Props.C02DHP", "CdsVerif.Algo.DHP.Replay"], thorough)
+    dhp_tie(res, thorough)
     tie_H(res, "smr", smr_runs(thorough, ["dhp", "dhp_many"]), judged=False, only_oracle=SMR_SAFETY)
 
 
 def c03(res, thorough):
     import purespec
     smr_cov(res, ["destruction of the singleton and help_scan adoption: decided by the end-of-case count oracle (every retired object disposed exactly once)"])
-    lean_step(res, ["CdsVerif.Props.C03", "CdsVerif.Props.C01Protocol", "CdsVerif.Algo.HP.Replay"], thorough)
+    lean_step(res, ["CdsVerif.Props.C03", "CdsVerif.Props.C01Protocol", "CdsVerif.Algo.HP.Replay", "CdsVerif.Props.C02DHP", "CdsVerif.Algo.DHP.Replay"], thorough)
     hp_tie(res, thorough)
     exe = steps.build_pure("hpscan", ["hpscan.cpp"], with_libcds=True)
     steps.tie_D(res, exe, [str(res.seed + 1), str(6000 if thorough else 600)], ["seqeval"], purespec.compare_seq, "hpscan")
     tie_H(res, "smr", smr_runs(thorough, ["hp_inplace", "hp_classic", "hp_inplace_odd", "hp_classic_odd", "dhp", "dhp_many"]), judged=False, only_oracle=SMR_ONCE)
+    # retired chains that grow past one block (DHP): the run that found the double dispose of commit 323b567
+    tie_H(res, "smr", [{"args": ["--static", "1", "--grow", "200", "--mode", "mixed", "--threads", "3", "--ops", "5", "--variant", "dhp"], "cases": 8 if thorough else 4}], judged=False, only_oracle=SMR_ONCE, label="smr-grow")
+    dhp_tie(res, thorough)
 
 
 SETMAP_MNV = ["memory orders", "back-off timing", "allocators and functor bodies (a functor body is not a scheduling point)",
@@ -177,6 +202,27 @@ def setmap_check(res, thorough, prop, client, threads=3, ops=4, mixed=(3000, 400
     tie_H(res, client, hist_runs(thorough, threads, ops, enum_cases, mixed, extra=["--spec", spec]), **kw)
 
 
+def iterable_find_prev_probe(res):
+    """Kept witness of the IterableList find_prev race (known finding, C13 and C19): two threads, six operations, one
+    schedule; the probe runs the REAL list and prints its final iteration and contains() answers."""
+    try:
+        exe = vlib.build_client("fpprobe", src=os.path.join(vlib.HARNESS, "probes", "iterable_find_prev_race.cpp"))
+        rc, out, err = vlib.sh([exe, "0x21 1x98 0x5 1x5000 0x5000"], timeout=120)
+    except Exception as e:      # the probe is a corpus case: if it cannot be built any more, say so without failing the property
+        res.cov["find_prev_probe"] = "not run: %s" % str(e)[:200]
+        return
+    m = re.search(r"final iteration:(.*)", out)
+    keys = [int(x.split(":")[0]) for x in m.group(1).split()] if m else []
+    lost = re.search(r"contains\(1\)=0", out) is not None and 1 in keys
+    unsorted_ = any(a >= b for a, b in zip(keys, keys[1:]))
+    res.cov["find_prev_probe"] = {"final_iteration": keys, "insert_true_but_contains_false": lost}
+    res.add("evaluations")
+    if lost or unsorted_:
+        res.violation("list:iterable:find-prev-race", {"kind": "probe", "cmd": exe + ' "0x21 1x98 0x5 1x5000 0x5000"', "final_iteration": keys,
+                                                       "note": "insert(1) returned true; the sequential iteration afterwards yields %s and contains(1) is false" % keys,
+                                                       "trace": "harness/probes/iterable_find_prev_race.trace.txt"})
+
+
 def c13(res, thorough):
     setmap_check(res, thorough, "C13", "list", modules=["CdsVerif.Props.C13Michael"],
                  mnv=["MichaelList: Lean machine (Algo/Michael: search with helping, link_node with its plain stores, unlink_node with the single ignored unlink attempt) proved linearizable to Spec.map for all schedules, thread counts and keys, "
@@ -184,6 +230,7 @@ def c13(res, thorough):
                       "tied by trace conformance (variant imichael_hp_named: every load / store / CAS of the head and of every node's next word, values and mark bits included, and every result)",
                       "LazyList, IterableList, the KV forms and the RCU / nogc specialisations: no algorithm model; decided by histories judged against Spec.map"],
                  partial=["linearizability of LazyList / IterableList and of the RCU and nogc specialisations as theorems about algorithm models: not proved; decided on explored schedules only"])
+    iterable_find_prev_probe(res)
     # tie A: the Lean machine whose linearizability is proved (Algo/Michael) must accept the real traces step by step
     tie_A(res, "list", "michael", [{"args": ["--mode", "mixed", "--threads", "4", "--ops", "5", "--variant", "imichael_hp_named"], "cases": 12000 if thorough else 1500},
                                    {"args": ["--mode", "mixed", "--threads", "3", "--ops", "6", "--variant", "imichael_hp_named"], "cases": 8000 if thorough else 800},
@@ -347,14 +394,24 @@ def c18(res, thorough):
 
 
 def c19(res, thorough):
+    import iterable_pre
     base_cov(res, ["memory orders", "back-off timing",
-                   "no algorithm model of IterableList / FeldmanHashSet iteration yet: the clauses are decided by a relational oracle evaluated by the client on the real execution "
-                   "(every element with a successful add completed before the iteration began and no removal of its key invoked before the iteration ended counts as present throughout; "
-                   "disposed flag read when the iterator arrives and before it leaves, with two scheduling points in between; erase_at results judged against the removals logged for the element)",
-                   "one iterating thread (thread 0) and 2-3 updating threads; Feldman with head bits 4 / array bits 2 and hashes that share prefixes so that array nodes split under the iterator",
-                   "HP for all variants, DHP for the intrusive IterableList; the RCU Feldman iterators received the same fix but are not driven"],
-             partial=["the property as a theorem about an iterator model over all schedules: not proved; decided on explored schedules"])
-    lean_step(res, "CdsVerif.Props.C19", thorough)
+                   "Algo/Iterable: Lean machine of IterableList (search, link_data with its marking protocol and find_prev re-validation, new-node path, unlink_data, update replacing the data pointer, "
+                   "the iterator with its guard protocol, erase_at(iterator); abstract reclamation: retire / dispose enabled only when no hazard slot holds the element) proved for all schedules: "
+                   "the node chain is append-only and elements never move between nodes, a validated iterator guard never holds a disposed element, a finished iteration yields every element present throughout exactly once, "
+                   "erase_at removes exactly the iterator's element or fails only because the pointer part changed; tied by trace conformance (variant ilist_hp)",
+                   "the ordering clauses are FALSE of the real algorithm (C19_sorted_keys_not_invariant, C19_iter_order_can_fail: the non-atomic find_prev walk, known finding); proved instead: every step except the re-use CAS preserves sortedness, "
+                   "and iteration is in key order whenever the final state is sorted",
+                   "hash sets over IterableList and the Feldman iterators (forward / reverse): no machine; decided by the relational oracle of the client "
+                   "(every element with a successful add completed before the iteration began and no removal of its key invoked before it ended counts as present throughout; disposed flag read on arrival and before leaving; erase_at judged against the logged removals)",
+                   "one iterating thread and 2-3 updating threads; Feldman with head bits 4 / array bits 2 and prefix-sharing hashes; HP (DHP for the intrusive list); the RCU Feldman iterators received the same fix but are not driven"],
+             partial=["Feldman iterators and the hash sets over IterableList as theorems: not proved; decided on explored schedules", "IterableList key order: false of the code (known finding)"])
+    lean_step(res, ["CdsVerif.Props.C19", "CdsVerif.Props.C19Iterable"], thorough)
+    iterable_find_prev_probe(res)
+    tie_A(res, "iter", "iterable", [{"args": ["--mode", "mixed", "--threads", "3", "--ops", "4", "--variant", "ilist_hp"], "cases": 12000 if thorough else 1500},
+                                    {"args": ["--mode", "mixed", "--threads", "4", "--ops", "4", "--variant", "ilist_hp"], "cases": 6000 if thorough else 700},
+                                    {"args": ["--mode", "enum2" if thorough else "enum1", "--threads", "2", "--ops", "3", "--variant", "ilist_hp"], "cases": 6 if thorough else 3}],
+          pre=iterable_pre.iterable_pre)
     n = 40000 if thorough else 4000
     tie_H(res, "iter", [{"args": ["--mode", "mixed", "--threads", "3", "--ops", "4"], "cases": n},
                         {"args": ["--mode", "mixed", "--threads", "4", "--ops", "4"], "cases": n // 2},
@@ -542,7 +599,7 @@ TABLE = {
     "C15": ("translation_validation", c15),
     "C16": ("translation_validation", c16),
     "C01": ("proof", c01),
-    "C02": ("translation_validation", c02),
+    "C02": ("proof", c02),
     "C03": ("proof", c03),
     "C23": ("translation_validation", c23),
     "C06": ("translation_validation", c06),
@@ -556,7 +613,7 @@ TABLE = {
     "C28": ("proof", c28),
     "C09": ("translation_validation", c09),
     "C18": ("translation_validation", c18),
-    "C19": ("exploration", c19),
+    "C19": ("translation_validation", c19),
 }
 
 
